@@ -712,3 +712,428 @@ Proof.
 Qed.
 
 End Domain.
+
+(* (restated outside the section: lia makes every lemma proved inside depend on all its hypotheses) *)
+Lemma upd_same' f x v : upd f x v x = v.
+Proof. unfold upd. rewrite Z.eqb_refl. reflexivity. Qed.
+Lemma upd_other' f x v y : y <> x -> upd f x v y = f y.
+Proof. intros H. unfold upd. destruct (y =? x) eqn:E; [lia|reflexivity]. Qed.
+Lemma ev_out_other' pend x u k n p y : y <> x -> snd (ev_out pend x u k n p) y = pend y.
+Proof.
+  intros H. unfold ev_out. destruct (k =? 0)%nat, (completes u k n); cbn [snd]; rewrite ?upd_other' by exact H; reflexivity.
+Qed.
+
+(* ---------------- from the declarative well-formedness to the hypotheses of the induction ---------------- *)
+
+Definition pes_pid (l : list (Z * list carried)) (x : Z) : bool :=
+  match units_of l x with c :: _ => negb (is_psi (cu_unit c)) | [] => false end.
+
+Lemma table_pes_excl l x : table_pid l x = true -> pes_pid l x = true -> False.
+Proof. unfold table_pid, pes_pid. destruct (units_of l x) as [|c ?]; [discriminate|]. destruct (is_psi (cu_unit c)); discriminate. Qed.
+
+Lemma units_of_in l x : units_of l x <> [] -> In x (map fst l).
+Proof.
+  induction l as [|[k c] l IH]; [intros H; contradiction|]. cbn [units_of map fst In].
+  destruct (k =? x) eqn:E; [left; lia|]. intros H. right. apply IH, H.
+Qed.
+
+Lemma in_number_from u n : forall l k0 u' k' n' p', In (u', k', n', p') (number_from u n k0 l) ->
+  u' = u /\ n' = n /\ (k0 <= k')%nat /\ In p' l.
+Proof.
+  induction l as [|p l IH]; intros k0 u' k' n' p' H; [contradiction|]. cbn [number_from] in H. destruct H as [E|H].
+  - injection E as <- <- <- <-. repeat split; [lia|left; reflexivity].
+  - destruct (IH _ _ _ _ _ H) as (A & B & C & D). repeat split; try assumption; [lia|right; exact D].
+Qed.
+
+Lemma in_labelled c u k n p : In (u, k, n, p) (labelled c) ->
+  u = cu_unit c /\ In p (cu_pkts c) /\ (k = 0%nat -> p = cu_first c).
+Proof.
+  unfold labelled, cu_pkts. cbn [number_from length]. intros [E|H].
+  - injection E as <- <- <- <-. repeat split; [left; reflexivity].
+  - destruct (in_number_from _ _ _ _ _ _ _ _ H) as (A & _ & C & D). split; [exact A|]. split; [right; exact D|]. intros ->. lia.
+Qed.
+
+Lemma in_proj x u k n p evs : In (EPkt x u k n p) evs -> In (u, k, n, p) (proj x evs).
+Proof.
+  induction evs as [|e r IH]; [intros H; contradiction|]. intros [E|H].
+  - subst e. cbn [proj]. rewrite Z.eqb_refl. left. reflexivity.
+  - destruct e as [q|y u' k' n' q]; cbn [proj]; [apply IH, H|]. destruct (y =? x); [right|]; apply IH, H.
+Qed.
+
+Lemma payload_le sp : spkt_ok sp -> (length (sp_payload sp) <= 188)%nat.
+Proof.
+  intros H. pose proof (spkt_bytes_len sp H) as Hl. destruct H as (W & Hs & Ob).
+  unfold spkt_bytes in Hl. rewrite (PacketRef.ref_bytes_stuffed _ _ W Hs Ob), !app_length in Hl. unfold sp_payload. lia.
+Qed.
+
+Lemma section_to_data_len s fp x : (length (section_to_data s fp x) <= 2)%nat.
+Proof.
+  unfold section_to_data. destruct (PSISection_Syntax s) as [syn|]; [|cbn; lia].
+  destruct (PSISectionSyntax_Data syn) as [d|]; [|cbn; lia]. destruct (PSISection_Header s) as [h|]; [|cbn; lia].
+  set (tid := PSISectionHeader_TableID h).
+  destruct (is_nit_id tid), (tid =? C_PSITableIDPAT), (tid =? C_PSITableIDPMT), (is_sdt_id tid), (tid =? C_PSITableIDTOT), (is_eit_id tid);
+    cbn [app length]; lia.
+Qed.
+
+Lemma concat_framed_length3 secs : Forall framed secs -> (3 * length secs <= length (concat secs))%nat.
+Proof.
+  induction 1 as [|s l Hs _ IH]; [cbn; lia|]. cbn [concat length]. rewrite app_length.
+  pose proof (framed_length s Hs). lia.
+Qed.
+
+Lemma unit_data_pid x u p : Forall (fun d => DemuxerData_PID d = x) (unit_data x u p).
+Proof.
+  destruct u as [pu|su]; cbn [unit_data]; [repeat constructor|].
+  induction (su_secs su) as [|s l IH]; [constructor|]. cbn [flat_map]. apply Forall_app. split; [|exact IH].
+  unfold section_to_data. destruct (PSISection_Syntax (se_value s)) as [syn|]; [|constructor].
+  destruct (PSISectionSyntax_Data syn) as [d|]; [|constructor]. destruct (PSISection_Header (se_value s)) as [h|]; [|constructor].
+  set (tid := PSISectionHeader_TableID h).
+  destruct (is_nit_id tid), (tid =? C_PSITableIDPAT), (tid =? C_PSITableIDPMT), (is_sdt_id tid), (tid =? C_PSITableIDTOT), (is_eit_id tid);
+    repeat constructor.
+Qed.
+
+Section Top.
+Variable SP : list Z -> PSISection -> Prop.
+Hypothesis SP_parses : forall b s, SP b s -> sec_parses b s.
+
+Lemma units_of_ok l x : Forall (fun e => pid_units_ok SP (fst e) (snd e)) l ->
+  units_of l x = [] \/ pid_units_ok SP x (units_of l x).
+Proof.
+  induction 1 as [|[k c] l Hk _ IH]; [left; reflexivity|]. cbn [units_of].
+  destruct (k =? x) eqn:E; [|exact IH]. right. assert (k = x) by lia. subst k. exact Hk.
+Qed.
+
+(* the data of a unit are fewer than the bytes of one packet *)
+Lemma unit_data_small x c : carried_ok SP x c ->
+  (length (unit_data x (cu_unit c) (sp_pkt (cu_first c))) <= 188)%nat.
+Proof.
+  intros (Hu & Hon & _ & _ & Hpay & Hpart). destruct (cu_unit c) as [pu|su] eqn:Eu; [cbn; lia|].
+  cbn [unit_data unit_ok unit_bytes psi_partial] in *.
+  destruct Hu as (Hp & Hf & _ & Hne & Hs).
+  pose proof (payload_le _ (proj1 (Forall_inv Hon))) as Hle.
+  assert (Hlen : forall l, (length (flat_map (fun s => section_to_data (se_value s) (first_pkt (sp_pkt (cu_first c))) x) l)
+                  <= 2 * length l)%nat).
+  { induction l as [|s l IH]; [cbn; lia|]. cbn [flat_map length]. rewrite app_length.
+    pose proof (section_to_data_len (se_value s) (first_pkt (sp_pkt (cu_first c))) x). lia. }
+  specialize (Hlen (su_secs su)).
+  destruct (exists_last Hne) as (front & lst & E).
+  assert (Hfront : (3 * length front < 188)%nat).
+  { pose proof (secs_framed SP _ Hs) as Hfr. rewrite E, map_app in Hfr. apply Forall_app in Hfr. destruct Hfr as [Hfr _].
+    pose proof (concat_framed_length3 _ Hfr) as H3. rewrite map_length in H3.
+    assert (Hp1 : payload_of [cu_first c] = sp_payload (cu_first c)) by (unfold payload_of; cbn [map concat]; apply app_nil_r).
+    destruct (cu_rest c) as [|r1 rest] eqn:Er.
+    - unfold cu_pkts in Hpay. rewrite Er, Hp1 in Hpay. unfold psi_unit_bytes in Hpay.
+      pose proof (f_equal (@length Z) Hpay) as Hl. cbn [length] in Hl. rewrite !app_length, E, map_app, concat_app, app_length in Hl. lia.
+    - specialize (Hpart 1%nat). unfold cu_pkts in Hpart. rewrite Er in Hpart. cbn [length firstn] in Hpart.
+      specialize (Hpart ltac:(lia)). rewrite Hp1 in Hpart. unfold last_sec_start in Hpart. rewrite E, removelast_last in Hpart. lia. }
+  rewrite E, app_length in Hlen. cbn [length] in Hlen. rewrite E. lia.
+Qed.
+
+Section Stream.
+Variable rs : ref_stream.
+Hypothesis Hwf : wf_stream SP rs.
+
+Let pidl := map fst (rs_pids rs).
+Let tbl := table_pid (rs_pids rs).
+Let pes := pes_pid (rs_pids rs).
+
+Lemma event_unit x u k n p : In (EPkt x u k n p) (rs_events rs) ->
+  exists c, In c (units_of (rs_pids rs) x) /\ In (u, k, n, p) (labelled c) /\ pid_units_ok SP x (units_of (rs_pids rs) x).
+Proof.
+  destruct Hwf as (_ & Hall & Hproj & _). intros H. apply in_proj in H. rewrite Hproj in H.
+  apply in_flat_map in H. destruct H as (c & Hc & Hin). exists c. split; [exact Hc|]. split; [exact Hin|].
+  destruct (units_of_ok (rs_pids rs) x Hall) as [E|Hok]; [rewrite E in Hc; contradiction|exact Hok].
+Qed.
+
+Lemma event_facts x u k n p : In (EPkt x u k n p) (rs_events rs) ->
+  kind_ok tbl pes x u /\ In x pidl /\ pkt_on x p /\ (k = 0%nat -> (length (unit_data x u (sp_pkt p)) <= 188)%nat).
+Proof.
+  intros H. destruct (event_unit x u k n p H) as (c & Hc & Hin & (Hcar & _ & Hkind)).
+  destruct (in_labelled c u k n p Hin) as (-> & Hp & Hk0).
+  pose proof (proj1 (Forall_forall _ _) Hcar c Hc) as Hcok.
+  split; [|split; [|split]].
+  - unfold kind_ok, tbl, pes, table_pid, pes_pid. destruct (units_of (rs_pids rs) x) as [|c0 l] eqn:E; [contradiction|].
+    destruct Hkind as [[Hes Hall]|[Htp Hall]].
+    + rewrite (proj1 (Forall_forall _ _) Hall c Hc), (Forall_inv Hall). split; [exact Hes|reflexivity].
+    + rewrite (proj1 (Forall_forall _ _) Hall c Hc), (Forall_inv Hall). split; [exact Htp|reflexivity].
+  - apply units_of_in. intros E. rewrite E in Hc. contradiction.
+  - destruct Hcok as (_ & Hon & _). apply (proj1 (Forall_forall _ _) Hon p Hp).
+  - intros Hk. rewrite (Hk0 Hk). apply (unit_data_small x c Hcok).
+Qed.
+
+Lemma evs_ok_intro : forall evs reg,
+  (forall x u k n p, In (EPkt x u k n p) evs -> kind_ok tbl pes x u /\ In x pidl) ->
+  Forall filler_ok (fillers evs) -> pat_first tbl reg evs -> evs_ok pidl tbl pes reg evs.
+Proof.
+  induction evs as [|e r IH]; intros reg Hf Hfill Hpat; [exact I|]. destruct e as [q|x u k n q].
+  - cbn [fillers] in Hfill. cbn [evs_ok pat_first] in *. split; [apply (Forall_inv Hfill)|].
+    apply IH; [intros x' u' k' n' p' Hi; apply (Hf x' u' k' n' p'); right; exact Hi|apply (Forall_inv_tail Hfill)|exact Hpat].
+  - cbn [fillers] in Hfill. cbn [evs_ok pat_first] in *. destruct Hpat as [Hp1 Hp2].
+    destruct (Hf x u k n q ltac:(left; reflexivity)) as [Hk Hin]. split; [exact Hk|]. split; [exact Hin|]. split; [exact Hp1|].
+    apply IH; [intros x' u' k' n' p' Hi; apply (Hf x' u' k' n' p'); right; exact Hi|exact Hfill|exact Hp2].
+Qed.
+
+Lemma stream_seq x : pid_seq SP x None (proj x (rs_events rs)).
+Proof.
+  destruct Hwf as (_ & Hall & Hproj & _). rewrite Hproj.
+  destruct (units_of_ok (rs_pids rs) x Hall) as [E|(Hcar & Hcc & _)]; [rewrite E; exact I|].
+  apply (units_seq SP SP_parses x _ None Hcar I). exact Hcc.
+Qed.
+
+Lemma stream_pkts_ok : Forall spkt_ok (map ev_pkt (rs_events rs)).
+Proof.
+  apply Forall_forall. intros sp Hsp. apply in_map_iff in Hsp. destruct Hsp as (e & <- & He).
+  destruct e as [q|x u k n q]; cbn [ev_pkt].
+  - destruct Hwf as (_ & _ & _ & Hfill & _).
+    assert (Hq : In q (fillers (rs_events rs))).
+    { clear - He. induction (rs_events rs) as [|e r IH]; [contradiction|]. destruct He as [->|He]; [left; reflexivity|].
+      destruct e; cbn [fillers]; [right|]; apply IH, He. }
+    apply (proj1 (Forall_forall _ _) Hfill q Hq).
+  - destruct (event_facts x u k n q He) as (_ & _ & (Hok & _) & _). exact Hok.
+Qed.
+
+Lemma stream_bufs : stream_bytes rs = concat (map (fun e => spkt_bytes (ev_pkt e)) (rs_events rs)).
+Proof. unfold stream_bytes. apply flat_map_concat_map. Qed.
+
+End Stream.
+End Top.
+
+(* ---------------- what [expect] lists: per PID, and how many ---------------- *)
+
+Definition pid_tagged (pend : Z -> list DemuxerData) : Prop := forall y, Forall (fun d => DemuxerData_PID d = y) (pend y).
+
+Lemma filter_all x l : Forall (fun d => DemuxerData_PID d = x) l -> filter (on_x x) l = l.
+Proof. induction 1 as [|d l Hd _ IH]; [reflexivity|]. cbn [filter]. unfold on_x at 1. rewrite Hd, Z.eqb_refl, IH. reflexivity. Qed.
+
+Lemma filter_none x y l : y <> x -> Forall (fun d => DemuxerData_PID d = y) l -> filter (on_x x) l = [].
+Proof.
+  intros Hne. induction 1 as [|d l Hd _ IH]; [reflexivity|]. cbn [filter]. unfold on_x at 1. rewrite Hd.
+  destruct (y =? x) eqn:E; [lia|exact IH].
+Qed.
+
+Lemma pid_tagged_upd pend x v : pid_tagged pend -> Forall (fun d => DemuxerData_PID d = x) v -> pid_tagged (upd pend x v).
+Proof. intros H Hv y. unfold upd. destruct (y =? x) eqn:E; [assert (y = x) by lia; subst; exact Hv|apply H]. Qed.
+
+Lemma ev_out_tagged pend x u k n p : pid_tagged pend ->
+  Forall (fun d => DemuxerData_PID d = x) (fst (ev_out pend x u k n p)) /\ pid_tagged (snd (ev_out pend x u k n p)).
+Proof.
+  intros H. pose proof (unit_data_pid x u (sp_pkt p)) as Hu. unfold ev_out.
+  destruct (k =? 0)%nat, (completes u k n); cbn [fst snd]; rewrite ?upd_same'; split;
+    repeat (first [apply Forall_app; split | apply pid_tagged_upd | apply H | exact Hu | constructor]).
+Qed.
+
+Definition starts_data (x : Z) (l : list titem) : list DemuxerData :=
+  flat_map (fun t => match t with (u, k, _, p) => if (k =? 0)%nat then unit_data x u (sp_pkt p) else [] end) l.
+
+Lemma filter_pend_in x pids pend : NoDup pids -> In x pids -> pid_tagged pend ->
+  filter (on_x x) (flat_map pend pids) = pend x.
+Proof.
+  intros Hnd Hin Ht. induction pids as [|a l IH]; [contradiction|]. cbn [flat_map]. rewrite filter_app.
+  apply NoDup_cons_iff in Hnd. destruct Hnd as [Ha Hnd]. destruct (Z.eq_dec a x) as [->|Hne].
+  - rewrite (filter_all x _ (Ht x)).
+    assert (E : filter (on_x x) (flat_map pend l) = []).
+    { clear - Ha Ht. induction l as [|b l IH]; [reflexivity|]. cbn [flat_map]. rewrite filter_app.
+      rewrite (filter_none x b _ ltac:(intros ->; apply Ha; left; reflexivity) (Ht b)), IH; [reflexivity|].
+      intros H. apply Ha. right. exact H. }
+    rewrite E, app_nil_r. reflexivity.
+  - rewrite (filter_none x a _ Hne (Ht a)). cbn [app]. destruct Hin as [E|Hin]; [congruence|]. apply IH; assumption.
+Qed.
+
+Lemma filter_pend_out x pids pend : ~ In x pids -> pid_tagged pend -> filter (on_x x) (flat_map pend pids) = [].
+Proof.
+  intros Hn Ht. induction pids as [|a l IH]; [reflexivity|]. cbn [flat_map]. rewrite filter_app.
+  rewrite (filter_none x a _ ltac:(intros ->; apply Hn; left; reflexivity) (Ht a)), IH; [reflexivity|].
+  intros H. apply Hn. right. exact H.
+Qed.
+
+(* per PID: what was open, then the units that start on it, each once, in order *)
+Theorem expect_on_x pids x : NoDup pids -> In x pids -> forall evs pend, pid_tagged pend ->
+  filter (on_x x) (StreamSpec.expect pids pend evs) = pend x ++ starts_data x (proj x evs).
+Proof.
+  intros Hnd Hin. induction evs as [|e r IH]; intros pend Ht.
+  - cbn [StreamSpec.expect proj starts_data flat_map]. rewrite app_nil_r. apply filter_pend_in; assumption.
+  - destruct e as [q|y u k n q]; cbn [StreamSpec.expect proj]; [apply IH, Ht|].
+    destruct (ev_out_tagged pend y u k n q Ht) as [Ho Ht'].
+    pose proof (ev_out_other' pend y u k n q) as Hother.
+    destruct (ev_out pend y u k n q) as [o p'] eqn:Eo. cbn [fst snd] in *.
+    rewrite filter_app, (IH p' Ht'). destruct (y =? x) eqn:E.
+    + assert (y = x) by lia. subst y. rewrite (filter_all x o Ho).
+      cbn [starts_data flat_map]. fold (starts_data x (proj x r)).
+      unfold ev_out in Eo. destruct (k =? 0)%nat, (completes u k n); injection Eo as <- <-; rewrite ?upd_same';
+        rewrite ?app_nil_r, <- ?app_assoc; reflexivity.
+    + rewrite (filter_none x y o ltac:(lia) Ho), (Hother x ltac:(lia)). reflexivity.
+Qed.
+
+Theorem expect_off_x pids x : ~ In x pids -> forall evs pend, pid_tagged pend -> pend x = [] ->
+  (forall y u k n p, In (EPkt y u k n p) evs -> y <> x) ->
+  filter (on_x x) (StreamSpec.expect pids pend evs) = [].
+Proof.
+  intros Hn. induction evs as [|e r IH]; intros pend Ht Hx Hev.
+  - apply filter_pend_out; assumption.
+  - destruct e as [q|y u k n q]; cbn [StreamSpec.expect].
+    + apply IH; try assumption. intros y u k n p H. apply (Hev y u k n p). right. exact H.
+    + destruct (ev_out_tagged pend y u k n q Ht) as [Ho Ht'].
+      pose proof (ev_out_other' pend y u k n q) as Hother.
+      pose proof (Hev y u k n q ltac:(left; reflexivity)) as Hy.
+      destruct (ev_out pend y u k n q) as [o p'] eqn:Eo. cbn [fst snd] in *.
+      rewrite filter_app, (filter_none x y o Hy Ho). cbn [app]. apply IH; try assumption.
+      * rewrite (Hother x ltac:(lia)). exact Hx.
+      * intros y' u' k' n' p H. apply (Hev y' u' k' n' p). right. exact H.
+Qed.
+
+Lemma flat_map_upd_notin {A} (f : Z -> list A) x v l : ~ In x l -> flat_map (fun y => if y =? x then v else f y) l = flat_map f l.
+Proof.
+  induction l as [|a l IH]; intros H; [reflexivity|]. cbn [flat_map]. destruct (a =? x) eqn:E.
+  - exfalso. apply H. left. lia.
+  - rewrite IH; [reflexivity|]. intros H'. apply H. right. exact H'.
+Qed.
+
+Lemma weight_upd pend x v pids : NoDup pids -> In x pids ->
+  (length (flat_map (upd pend x v) pids) + length (pend x) = length (flat_map pend pids) + length v)%nat.
+Proof.
+  intros Hnd Hin. induction pids as [|a l IH]; [contradiction|]. apply NoDup_cons_iff in Hnd. destruct Hnd as [Ha Hnd].
+  cbn [flat_map]. rewrite !app_length. destruct (Z.eq_dec a x) as [->|Hne].
+  - rewrite upd_same'. unfold upd at 1. rewrite (flat_map_upd_notin pend x v l Ha). lia.
+  - rewrite (upd_other' pend x v a Hne). destruct Hin as [E|Hin]; [congruence|]. specialize (IH Hnd Hin). lia.
+Qed.
+
+Theorem expect_length pids : NoDup pids -> forall evs pend,
+  (forall x u k n p, In (EPkt x u k n p) evs -> In x pids /\ (k = 0%nat -> (length (unit_data x u (sp_pkt p)) <= 188)%nat)) ->
+  (length (StreamSpec.expect pids pend evs) <= length (flat_map pend pids) + 188 * length evs)%nat.
+Proof.
+  intros Hnd. induction evs as [|e r IH]; intros pend Hev; [cbn [StreamSpec.expect length]; lia|].
+  assert (Hr : forall x u k n p, In (EPkt x u k n p) r -> In x pids /\ (k = 0%nat -> (length (unit_data x u (sp_pkt p)) <= 188)%nat)).
+  { intros x u k n p H. apply (Hev x u k n p). right. exact H. }
+  destruct e as [q|x u k n q]; cbn [StreamSpec.expect].
+  - specialize (IH pend Hr). cbn [length]. lia.
+  - destruct (Hev x u k n q ltac:(left; reflexivity)) as [Hin Hsmall].
+    assert (Hstep : (length (fst (ev_out pend x u k n q)) + length (flat_map (snd (ev_out pend x u k n q)) pids)
+                     <= length (flat_map pend pids) + 188)%nat).
+    { unfold ev_out. destruct (k =? 0)%nat eqn:Ek.
+      - apply Nat.eqb_eq in Ek. specialize (Hsmall Ek). set (ud := unit_data x u (sp_pkt q)) in *.
+        pose proof (weight_upd pend x ud pids Hnd Hin) as W1.
+        destruct (completes u k n); cbn [fst snd].
+        + pose proof (weight_upd (upd pend x ud) x [] pids Hnd Hin) as W2. rewrite upd_same' in W2 |- *.
+          rewrite app_length. cbn [length] in W2. lia.
+        + lia.
+      - destruct (completes u k n); cbn [fst snd app].
+        + pose proof (weight_upd pend x [] pids Hnd Hin) as W2. cbn [length] in W2. lia.
+        + cbn [length]. lia. }
+    destruct (ev_out pend x u k n q) as [o p']. cbn [fst snd] in Hstep. rewrite app_length.
+    specialize (IH p' Hr). cbn [length]. lia.
+Qed.
+
+(* ---------------- the theorems ---------------- *)
+
+Section Final.
+Variable SP : list Z -> PSISection -> Prop.
+Hypothesis SP_parses : forall b s, SP b s -> sec_parses b s.
+
+Lemma pkts_seen l : Forall spkt_ok l ->
+  Forall (buf_ok 188) (map spkt_bytes l) /\ Forall2 (fun b p => parse_packet_bytes b = Ok p) (map spkt_bytes l) (map obs l).
+Proof.
+  induction 1 as [|sp l Hsp _ [IH1 IH2]]; [split; constructor|]. destruct (spkt_seen sp Hsp) as [Hb Hp].
+  cbn [map]. split; constructor; assumption.
+Qed.
+
+Lemma sorted_nodup l : StronglySorted Z.lt l -> NoDup l.
+Proof.
+  induction 1 as [|a l _ IH Hall]; [constructor|]. constructor; [|exact IH].
+  intros Hin. pose proof (proj1 (Forall_forall _ _) Hall a Hin). lia.
+Qed.
+
+Lemma init_inv pids tbl pes : Inv SP pids tbl pes (fun _ => None) no_pend [] [] [].
+Proof.
+  constructor.
+  - exact I.
+  - intros y. cbn. split; [discriminate|contradiction].
+  - split; [constructor|split; reflexivity].
+  - intros y H. exfalso. apply H. reflexivity.
+  - intros x _. split; reflexivity.
+Qed.
+
+Lemma starts_number_from x u n : forall l k0, (0 < k0)%nat -> starts_data x (number_from u n k0 l) = [].
+Proof.
+  induction l as [|p l IH]; intros k0 Hk; [reflexivity|]. cbn [number_from starts_data flat_map].
+  destruct k0; [lia|]. cbn [Nat.eqb app]. apply (IH (S (S k0))). lia.
+Qed.
+
+Lemma starts_data_app x a b : starts_data x (a ++ b) = starts_data x a ++ starts_data x b.
+Proof. apply flat_map_app. Qed.
+
+Lemma starts_labelled x cus :
+  starts_data x (flat_map labelled cus) = flat_map (fun c => unit_data x (cu_unit c) (sp_pkt (cu_first c))) cus.
+Proof.
+  induction cus as [|c cus IH]; [reflexivity|]. cbn [flat_map]. rewrite starts_data_app, IH. f_equal.
+  unfold labelled, cu_pkts. cbn [number_from length].
+  change ((cu_unit c, 0%nat, S (length (cu_rest c)), cu_first c) :: number_from (cu_unit c) (S (length (cu_rest c))) 1 (cu_rest c))
+    with ([(cu_unit c, 0%nat, S (length (cu_rest c)), cu_first c)] ++ number_from (cu_unit c) (S (length (cu_rest c))) 1 (cu_rest c)).
+  rewrite starts_data_app, (starts_number_from x (cu_unit c) (S (length (cu_rest c))) (cu_rest c) 1%nat ltac:(lia)).
+  cbn [starts_data flat_map Nat.eqb]. rewrite !app_nil_r. reflexivity.
+Qed.
+
+Section Stream.
+Variable rs : ref_stream.
+Hypothesis Hwf : wf_stream SP rs.
+
+Let pidl := map fst (rs_pids rs).
+
+Lemma stream_run : exists pl' pm' out pend',
+  feed full_parsers [] [] (map ev_obs (rs_events rs)) = Some (pl', pm', out) /\
+  drain_data full_parsers pm' pl' = Some (flat_map pend' pidl) /\
+  out ++ flat_map pend' pidl = expected rs.
+Proof.
+  pose proof Hwf as (Hsorted & Hall & Hproj & Hfill & Hpat & Hann).
+  apply (run_events SP SP_parses pidl (table_pid (rs_pids rs)) (pes_pid (rs_pids rs)) (table_pes_excl (rs_pids rs)) Hsorted
+           (rs_events rs) (fun _ => None) no_pend [] [] []).
+  - apply init_inv.
+  - apply (evs_ok_intro rs); [|exact Hfill|exact Hpat].
+    intros x u k n p H. destruct (event_facts SP rs Hwf x u k n p H) as (A & B & _). split; assumption.
+  - cbn [app]. intros y Hy. destruct (Hann y Hy) as [H1 H2]. split; [exact H1|].
+    unfold pes_pid. destruct (units_of (rs_pids rs) y) as [|c l] eqn:E; [reflexivity|].
+    rewrite (H2 c ltac:(left; reflexivity)). reflexivity.
+  - intros x. apply (stream_seq SP SP_parses rs Hwf).
+Qed.
+
+Lemma expected_length : (length (expected rs) <= 188 * length (rs_events rs))%nat.
+Proof.
+  pose proof Hwf as (Hsorted & _).
+  pose proof (expect_length pidl (sorted_nodup _ Hsorted) (rs_events rs) no_pend) as H.
+  assert (E : forall l : list Z, flat_map no_pend l = []) by (induction l as [|a l IHl]; [reflexivity|exact IHl]).
+  rewrite (E pidl) in H. cbn [length] in H. apply H.
+  intros x u k n p Hin. destruct (event_facts SP rs Hwf x u k n p Hin) as (_ & B & _ & D). split; assumption.
+Qed.
+
+(* C02, delivered data: successive NextData calls on the bytes of a well-formed stream return exactly the expected
+   data, all Ok, then ErrNoMorePackets *)
+Theorem data_exact : demux_all (stream_bytes rs) = map Ok (expected rs).
+Proof.
+  destruct stream_run as (pl' & pm' & out & pend' & Hf & Hd & He).
+  destruct (pkts_seen _ (stream_pkts_ok SP rs Hwf)) as [Hb Hp].
+  rewrite stream_bufs. rewrite <- (map_map ev_pkt spkt_bytes).
+  set (bufs := map spkt_bytes (map ev_pkt (rs_events rs))) in *.
+  assert (Hy : yields full_parsers (init_dstate (new_reader (concat bufs) None Seekable) 188) (out ++ flat_map pend' pidl)).
+  { exists bufs, (map obs (map ev_pkt (rs_events rs))), pl', pm', out, (flat_map pend' pidl).
+    split; [apply init_at_bufs, Hb|]. split; [exact Hp|]. split; [rewrite map_map; exact Hf|]. split; [exact Hd|reflexivity]. }
+  unfold demux_all. rewrite (nd_all_yields full_parsers _ _ _ Hy).
+  - rewrite He. reflexivity.
+  - rewrite He. pose proof expected_length as Hl. pose proof (concat_length_188 bufs Hb) as Hlen.
+    unfold bufs in Hlen at 2. rewrite !map_length in Hlen. lia.
+Qed.
+
+(* per PID: exactly the units of that PID, each once, in order - whatever the interleaving *)
+Theorem data_per_pid x : filter (on_x x) (expected rs) = expected_on rs x.
+Proof.
+  pose proof Hwf as (Hsorted & Hall & Hproj & _). unfold expected, expected_on.
+  assert (Ht : pid_tagged no_pend) by (intros y; constructor).
+  destruct (in_dec Z.eq_dec x pidl) as [Hin|Hout].
+  - rewrite (expect_on_x pidl x (sorted_nodup _ Hsorted) Hin _ _ Ht). cbn [no_pend app].
+    rewrite Hproj. apply starts_labelled.
+  - rewrite (expect_off_x pidl x Hout _ _ Ht eq_refl).
+    + destruct (units_of (rs_pids rs) x) as [|c l] eqn:E; [reflexivity|]. exfalso. apply Hout.
+      apply units_of_in. rewrite E. discriminate.
+    + intros y u k n p H -> . destruct (event_facts SP rs Hwf x u k n p H) as (_ & B & _). exact (Hout B).
+Qed.
+
+End Stream.
+End Final.
